@@ -519,9 +519,14 @@ Definition finish_root (s : bstate) (root_index : nat) : bstate :=
               | Some (Some b) => match b_root_end b with Some e => e | None => [(I_EndExpression, ONone)] end
               | _ => [(I_EndExpression, ONone)]
               end in
+  (* a jump entry of this build names the current end of the stream (the join after an
+     else-chain that ends in `;;`, the entry of a body that emitted nothing): the closing
+     EndExpression is then not a repetition (read once, like [last]) *)
+  let end_is_jump_target := existsb (Nat.eqb (instr_len s)) (jumps s) in
   fold_left (fun acc e =>
                match last with
-               | Some li => if instr_eqb li e && instruction_eqb (fst e) I_EndExpression then acc else push_instr acc e None
+               | Some li => if instr_eqb li e && instruction_eqb (fst e) I_EndExpression && negb end_is_jump_target
+                            then acc else push_instr acc e None
                | None => push_instr acc e None
                end) ends s.
 
